@@ -213,6 +213,7 @@ def xsd_text(children, attrs, globals_=''):
 def plan(tier, seed):
     cases = schema_cases(tier)
     units = [{'kind': 'case', 'index': i, 'ver': v, 'lib': lib, 'tier': tier} for i in range(len(cases)) for v in ('1.0', '1.1') for lib in ('etree', 'lxml')]
+    units += [{'kind': 'qname', 'ver': v, 'lib': lib} for v in ('1.0', '1.1') for lib in ('etree', 'lxml')]
     units += [{'kind': 'reuse', 'ver': v, 'lib': lib, 'via': via, 'depth': REUSE_DEPTH[tier]} for v in ('1.0', '1.1') for lib in ('etree', 'lxml') for via in ('root', 'item')]
     return {
         'units': units,
@@ -638,7 +639,60 @@ def fam(T):
     return 'integer-subtype' if T in A.INT_BOUNDS and T != 'integer' else T
 
 
+def run_qname(unit, tier, acc):
+    """xs:QName typed content: a prefixed value takes the namespace bound to the prefix where the node is, an unprefixed one the default
+    namespace in scope (lxml keeps the map; xml.etree does not, there a prefixed value can only fail - with an ElementPathError)"""
+    from elementpath import XPathContext, ElementPathError
+    from elementpath.xpath31 import XPath31Parser
+    ver, lib = unit['ver'], unit['lib']
+    S = setup(ver)
+    if lib == 'lxml':
+        import lxml.etree as ET
+    else:
+        import xml.etree.ElementTree as ET
+    for tns in ('urn:d', None):
+        head = ('targetNamespace="urn:d" xmlns="urn:d" elementFormDefault="qualified"' if tns else '')
+        xsd = ('<xs:schema xmlns:xs="http://www.w3.org/2001/XMLSchema" %s><xs:element name="r"><xs:complexType><xs:sequence><xs:element name="c" type="xs:QName" maxOccurs="9"/>'
+               '<xs:element name="g" minOccurs="0"><xs:complexType><xs:sequence><xs:element name="c" type="xs:QName"/></xs:sequence></xs:complexType></xs:element></xs:sequence>'
+               '<xs:attribute name="a" type="xs:QName"/></xs:complexType></xs:element></xs:schema>' % head)
+        schema = S['cls'](xsd)
+        proxy = schema.xpath_proxy
+        text = '<r %s xmlns:p="urn:p" a="p:x"><c>b</c><c>p:b</c><c> p:b </c><g xmlns:q="urn:q"><c>q:z</c></g></r>' % ('xmlns="urn:d"' if tns else '')
+        if not schema.is_valid(text):
+            raise RuntimeError('harness: QName instance is not valid')
+        ns = {'d': tns or '', 'p': 'urn:p'}
+        pre = 'd:' if tns else ''
+        sp = XPath31Parser(namespaces={k: v for k, v in ns.items() if v}, schema=proxy, xsd_version=ver)
+        want = {'%sr/%sc[1]' % (pre, pre): (tns or '', 'b'), '%sr/%sc[2]' % (pre, pre): ('urn:p', 'b'), '%sr/%sc[3]' % (pre, pre): ('urn:p', 'b'),
+                '%sr/%sg/%sc' % (pre, pre, pre): ('urn:q', 'z'), '%sr/@a' % pre: ('urn:p', 'x')}
+        for path, (uri, local) in want.items():
+            case = {'kind': 'qname', 'ver': ver, 'lib': lib}
+            acc.case(True)
+            try:
+                r = sp.parse('for $q in data(/%s) return (string(namespace-uri-from-QName($q)), local-name-from-QName($q), $q instance of xs:QName)' % path).evaluate(
+                    XPathContext(ET.fromstring(text), schema=proxy))
+                got = ('val', r)
+            except ElementPathError as e:
+                got = ('err', (e.code or '').split(':')[-1])
+            except Exception as e:  # noqa
+                got = ('escape', type(e).__name__ + ': ' + str(e)[:60])
+            acc.ev()
+            acc.cmp()
+            prefixed = uri not in ('', tns)
+            if lib == 'etree' and (prefixed or tns):
+                ok = got[0] in ('err',) or (got[0] == 'val' and got[1][1:] == [local, True])       # the namespace cannot be known; no escape
+            else:
+                ok = got == ('val', [uri, local, True])
+            acc.outcome('qname:' + ('ok' if ok else 'bad'))
+            if not ok:
+                acc.violation('C20|typed-value|%s|QName|%s' % ('attribute' if '@' in path else 'element', got[0] if got[0] != 'val' else 'wrong-namespace' ), 'data(/%s) on %s' % (path, text),
+                              {'expected': [uri, local, True], 'observed': repr(got)[:120]}, case)
+    acc.sample({'unit': 'qname', 'library': lib, 'instance': text}, limit=1)
+
+
 def run_unit(unit, tier, acc):
+    if unit['kind'] == 'qname':
+        return run_qname(unit, tier, acc)
     if unit['kind'] == 'reuse':
         run_reuse(unit, tier, acc)
     else:
